@@ -90,6 +90,25 @@ def extremalAt (B : Mat n n K) (lam : Vec d K) (σ : K) : Bool :=
   | some p => decide (p ≤ countAbove lam σ)
   | none => false
 
+/-! ### A certificate of extremality that is sound for APPROXIMATE eigenvectors
+
+`S = σ·1 − B + Σ_j c j · v_j v_jᵀ`.  If the exact elimination of `S` closes with all pivots `≥ 0`, `S` is positive
+semi-definite, hence for every `x` orthogonal to the columns of `V`:  `xᵀ B x ≤ σ·xᵀ x` — whatever `V`, `c` are
+(`Proofs/Inertia.extremalDeflated_sound`: no exactness of the eigenpairs is assumed). -/
+
+def deflated (B : Mat n n K) (V : Mat n d K) (c : Vec d K) (σ : K) : Mat n n K :=
+  fun i k => ((if i = k then σ else 0) - B i k) + sumFin d fun j => c j * V i j * V k j
+
+def nonnegAll (ps : List K) : Bool := ps.all fun p => decide (0 ≤ p)
+
+/-- exact positive-semi-definiteness certificate: the elimination closes and no pivot is negative -/
+def psdCert (M : Mat n n K) : Bool :=
+  let s := ldlRun M
+  isZeroMat s.M.get && nonnegAll s.pivots
+
+def extremalDeflated (B : Mat n n K) (V : Mat n d K) (c : Vec d K) (σ : K) : Bool :=
+  psdCert (deflated B V c σ)
+
 /-- smallest entry of `lam` (`0` for `d = 0`) -/
 def minVec (lam : Vec d K) : K :=
   match List.finRange d with
